@@ -221,6 +221,8 @@ def non_nan_facts(fn, target_block):
                 m = n
                 while m[0] == 'unop':
                     m = next(iter(m[2]))
+                if m[0] != 'call' or not m[2]:
+                    continue            # the literal of a materialised flag (`a && x.is_finite()`)
                 edges = [e for e in (te if want_true else fe) if e[0] == sb]
                 if edges and target_block not in fn.reachable(0, removed=frozenset(edges)):
                     out.append(m[2][0])
@@ -320,6 +322,8 @@ def loop_non_nan(fn, target_block):
                     m = n
                     while m[0] == 'unop':
                         m = next(iter(m[2]))
+                    if m[0] != 'call' or not m[2]:
+                        continue
                     out.append(m[2][0])
     return out
 
@@ -660,6 +664,8 @@ def _check_count(ctx, b, fn, pi, r_cnt):
                 continue
             if n[0] in ('unwrap', 'clone') and is_payload(n[1]):
                 continue
+            if n[0] == 'index' and n[2] and all(i[0] == 'agg' and i[1] == 'std::ops::RangeFull' for i in n[2]) and is_payload(n[1]):
+                continue                # `v[..]`: the whole vector seen as a slice
             return False
         return True
 
@@ -738,6 +744,8 @@ def _check_count(ctx, b, fn, pi, r_cnt):
         args = [fn.arg_terms(t, j, bi) for j in range(len(t['args']))]
         if not any(is_payload(a) for a in args):
             continue
+        if path in ('std::ops::Index::index',) and len(args) == 2 and args[1] and all(i[0] == 'agg' and i[1] == 'std::ops::RangeFull' for i in args[1]):
+            continue                    # `v[..]` re-borrows the whole vector as a slice: not a use of an element
         n_uses += 1
         ok = bi not in reach_wo
         if path in ('std::ops::Index::index',) and len(args) == 2 and len(args[1]) == 1 and next(iter(args[1]))[0] == 'const':
